@@ -4,6 +4,7 @@ import (
 	"fmt"
 	"go/ast"
 	"go/constant"
+	"go/token"
 	"go/types"
 	"sort"
 	"strings"
@@ -270,4 +271,69 @@ func runC26(c *eng.Ctx) {
 		})
 	}
 	c.Check("R4", "promql/parser", "entry points driving the generated parser (≥4)", n >= 4, "", fmt.Sprint(n))
+	// ---- R5 the @ timestamp (milliseconds, may be negative) is printed sign-safely ----
+	// Go's integer / and % truncate toward zero, so splitting a negative value into seconds and
+	// milliseconds with them prints e.g. -1500 as "-1.-500", which parses as a different expression.
+	// Accepted: a floating-point division; an integer split only in a function that tests the sign.
+	sites := 0
+	for _, fnRef := range []string{"promql/parser:MatrixSelector.atOffset", "promql/parser:SubqueryExpr.getSubqueryTimeSuffix", "promql/parser:VectorSelector.String"} {
+		f := c.Fn(fnRef)
+		// the expressions that mention the timestamp value, plus the bodies of package functions it is handed to
+		type scanItem struct {
+			n    ast.Node
+			info *types.Info
+		}
+		var scan []scanItem
+		var helpers []string
+		ast.Inspect(f.Body, func(x ast.Node) bool {
+			call, ok := x.(*ast.CallExpr)
+			if !ok {
+				return true
+			}
+			mentions := false
+			for _, a := range call.Args {
+				if strings.Contains(nodeText(a), ".Timestamp") {
+					mentions = true
+				}
+			}
+			if !mentions {
+				return true
+			}
+			scan = append(scan, scanItem{call, f.Info})
+			if id, ok := call.Fun.(*ast.Ident); ok {
+				if fo, ok := f.Info.Uses[id].(*types.Func); ok && fo.Pkg() != nil && fo.Pkg().Path() == "github.com/prometheus/prometheus/promql/parser" {
+					helpers = append(helpers, "promql/parser:"+fo.Name())
+				}
+			}
+			return true
+		})
+		for _, h := range helpers {
+			hf := c.Fn(h)
+			scan = append(scan, scanItem{hf.Body, hf.Info})
+		}
+		if len(scan) > 0 {
+			sites++
+		}
+		var bad []string
+		for _, it := range scan {
+			signTest := strings.Contains(nodeText(it.n), "< 0") || strings.Contains(nodeText(it.n), ">= 0")
+			ast.Inspect(it.n, func(x ast.Node) bool {
+				be, ok := x.(*ast.BinaryExpr)
+				if !ok || (be.Op != token.REM && be.Op != token.QUO) {
+					return true
+				}
+				if t := it.info.TypeOf(be.X); t != nil && isIntegerType(t) && !signTest {
+					bad = append(bad, nodeText(be))
+				}
+				return true
+			})
+		}
+		c.Check("R5", f.Where(), "the @ timestamp is not split with integer / or % without a sign test", len(bad) == 0, p.Pos(f.Body.Pos()), strings.Join(bad, "; "))
+	}
+	c.Check("R5", "promql/parser", "three printers format an @ timestamp", sites == 3, "", fmt.Sprint(sites))
+}
+
+func isIntegerType(t types.Type) bool {
+	b, ok := t.Underlying().(*types.Basic)
+	return ok && b.Info()&types.IsInteger != 0
 }
